@@ -60,6 +60,11 @@ class WcBase(HookMixin, WorkChain):
         fut.add_done_callback(done)
         return obj
 
+    def init(self):
+        # helper state built from what the class persists (see ProgBase.init): needs the restored context
+        super().init()
+        self._pv_ctx_keys_at_init = sorted(vars(self.ctx))
+
     def to_context(self, **kwargs):
         # the public registration method is an extension point (an application wraps / converts what it is given):
         # a returned ToContext has to come through here as well
@@ -122,6 +127,18 @@ class WcBase(HookMixin, WorkChain):
         vals = self.BEHAVIOUR.get('preds', {}).get(name, [])
         value = bool(vals[k]) if k < len(vals) else False
         world.cur().tr(self.pid, {'k': 'pred', 'name': name, 'value': value, 'call': k})
+        # predicates in the wild return work lists, names, counts: their truth value is what counts
+        shape = self.BEHAVIOUR.get('pred_as', {}).get(name)
+        if shape == 'list':
+            return ['todo'] if value else []
+        if shape == 'str':
+            return 'yes' if value else ''
+        if shape == 'tuple':
+            return (0,) if value else ()
+        if shape == 'int':
+            return 2 if value else 0
+        if shape == 'none':
+            return object() if value else None
         return value
 
 
